@@ -109,12 +109,16 @@ def check_output(ctx, case, out, in_root, in_attrs, n_top):
             acc.violation("root", "root:not-single-svg-root", case, observed=[t[1] for t in tops], expected="single <svg> root")
             return False
         attrs = tops[0][2]
+        # input class for signatures: a root <svg> declaring a default namespace other than SVG's is copied through unprocessed
+        # (known finding, same mechanism as C05's @foreign-xmlns-root); every other input is the ordinary class
+        xm = (in_attrs or {}).get("xmlns")
+        icls = "@foreign-xmlns-root" if (xm is not None and xm != SVGNS) else ""
         if attrs.get("xmlns") != SVGNS:
-            acc.violation("root", "root:xmlns-missing", case, observed=attrs, expected="xmlns=" + SVGNS)
+            acc.violation("root", "root:xmlns-missing" + icls, case, observed=attrs, expected="xmlns=" + SVGNS)
             ok = False
-        real = (in_attrs or {}).get("xmlns") == SVGNS
+        real = xm == SVGNS
         if "version" not in attrs and (not real or "version" in (in_attrs or {})):
-            acc.violation("root", "root:version-missing", case, observed=attrs, expected="a version attribute")
+            acc.violation("root", "root:version-missing" + icls, case, observed=attrs, expected="a version attribute")
             ok = False
         return ok
     return True
